@@ -92,6 +92,9 @@ class World:
         self.short_reads = False
         self.shuffle_dirs = False
         self.cache_pages = random.Random('%s:cache' % seed).choice([0, 0, 1, 2, 8])
+        self.reentrant_every = random.Random('%s:reentrant' % seed).choice([0, 0, 0, 3, 7])
+        self._in_read = False
+        self.reads = 0
         self.page_size = random.Random('%s:page' % seed).choice([0, 0, 512, 1024])
         self.recording = False
         self.node('primary')
@@ -205,6 +208,8 @@ class World:
         w = self
 
         def auth(action, a1, a2, dbname, source):
+            if w._in_read:
+                return sqlite3.SQLITE_OK
             w.counters['auth'] += 1
             if w.faults.auth_at is not None and w.counters['auth'] == w.faults.auth_at:
                 w.faults.fired.append('F2-authorizer-deny')
@@ -213,9 +218,32 @@ class World:
         conn.set_authorizer(auth)
 
     # -- callbacks from the seams -----------------------------------------------------------
+    def reentrant_read(self):
+        """A client reading through the public API from inside a progress callback, i.e. on
+        the pooled connection while the mutator's transaction is open (a GUI handler that
+        refreshes its view, another thread under allow_multithreading)."""
+        if self._in_read:
+            return
+        self._in_read = True
+        try:
+            n = 0
+            for lx in wn.lexicons():
+                n += len(lx.extensions()) + (lx.extends() is not None) + len(lx.requires())
+            for ss in wn.synsets()[:2]:
+                ss.lexicon()
+            self.reads += 1
+        except wn.Error:
+            pass
+        finally:
+            self._in_read = False
+
     def on_cb(self, kind, status):
+        if self._in_read:
+            return           # callbacks caused by the client's own re-entrant read
         c = self.counters
         c['cb'] += 1
+        if self.reentrant_every and c['cb'] % self.reentrant_every == 0:
+            self.reentrant_read()
         if self.recording:
             self.cb_log.append((kind, status))
         f = self.faults
@@ -229,6 +257,8 @@ class World:
     def on_stmt(self, kind, sql, nrows):
         """Called before a statement runs. Returns the prefix length to execute before
         failing (executemany mid-batch fault) or None."""
+        if self._in_read:
+            return None      # a client's re-entrant read: not part of the op's fault space
         c = self.counters
         c['stmt'] += 1
         if self.recording:
@@ -315,6 +345,8 @@ class SimConnection(sqlite3.Connection):
         interval = w.faults.vm_interval or n
 
         def wrapped(*a):
+            if w._in_read:
+                return 0
             w.counters['vm'] += 1
             f = w.faults
             if f.vm_at is not None and w.counters['vm'] == f.vm_at:
